@@ -308,7 +308,11 @@ class Tensor:
     def item(self):
         if self.a.size != 1:
             raise RuntimeError('a Tensor with %d elements cannot be converted to Scalar' % self.a.size)
-        return self.a.reshape(())[()]
+        v = self.a.reshape(())[()]
+        from . import autograd
+        if autograd.ENABLED and (self.requires_grad or self.grad_fn is not None):
+            return autograd.cut_value(v)
+        return v
 
     def tolist(self):
         return self.a.tolist() if self.a.ndim else self.a[()]
@@ -346,6 +350,9 @@ class Tensor:
         return self
 
     def detach(self):
+        from . import autograd
+        if autograd.ENABLED and (self.requires_grad or self.grad_fn is not None):
+            return Tensor(autograd.cut_array(self.a), self.dtype)     # value-equal copy, independent for differentiation
         r = Tensor(self.a, self.dtype)   # shares storage, cut from the graph
         r._detached_from = self
         return r
@@ -358,6 +365,11 @@ class Tensor:
             raise RuntimeError('only Tensors of floating point and complex dtype can require gradients')
         if not self.is_leaf and not flag:
             raise RuntimeError('you can only change requires_grad flags of leaf variables.')
+        from . import autograd
+        if autograd.ENABLED and flag:
+            if self.grad_fn is not None:
+                return self        # already part of a graph: torch keeps it a non-leaf that requires grad
+            autograd.make_leaf(self)
         self.requires_grad = flag
         return self
 
@@ -991,6 +1003,9 @@ def set_fresh(f):
 def tensor(data, dtype=None, device=None, requires_grad=False):
     from . import symnumpy
     if _isinstance(data, Tensor):
+        from . import autograd
+        if autograd.ENABLED and (data.requires_grad or data.grad_fn is not None):
+            return Tensor(autograd.cut_array(data.a), dtype or data.dtype)
         r = Tensor(data.a.copy(), dtype or data.dtype)
         return r
     if _isinstance(data, symnumpy.ndarray):
